@@ -1,6 +1,6 @@
 (** C10 — Dictionary builders are total and their acceptance implies safe use (PARTIAL). *)
 From Vib Require Import Model.Base Model.Lattice Model.Tokenizer Model.DictBuild Model.Mapper Check.TokCheck
-  Proofs.BuildProofs Proofs.MapperProofs Proofs.PartitionProofs Proofs.TotalProofs.
+  Proofs.BuildProofs Proofs.MapperProofs Proofs.PartitionProofs Proofs.TotalProofs Model.BigramText Proofs.BigramTextProofs.
 Local Open Scope N_scope.
 
 (** [CharProperty::from_reader] / [UnkHandler::from_reader] / the dictionary builder on parsed
@@ -29,6 +29,11 @@ Proof. exact build_dict_ids_in_range. Qed.
 Theorem c10_mapping_total : forall xs, N.of_nat (length xs) < 65535 -> mapper_parse xs <> Panic.
 Proof. exact mapper_parse_never_panics. Qed.
 
+(** the three bigram files at text level (Model/BigramText.v, compared with from_readers_with_bigram_info on valid
+    and edited files on every run): a connector or an error, never a panic, for EVERY three texts *)
+Theorem c10_bigram_text_total : forall rtxt ltxt ctxt maxl maxr, bigram_build_code rtxt ltxt ctxt maxl maxr <> 2.
+Proof. exact bigram_build_code_total. Qed.
+
 (** tokenizing with an accepted dictionary never runs out of the loop's fuel (termination) *)
 Theorem c10_tokenize_terminates : forall d o cs, tokenize_fresh d o cs <> OutOfFuel.
 Proof. exact tokenize_fresh_fuel. Qed.
@@ -48,3 +53,4 @@ Print Assumptions c10_ids_in_connector.
 Print Assumptions c10_mapping_total.
 Print Assumptions c10_tokenize_terminates.
 Print Assumptions c10_accepted_tokenizes.
+Print Assumptions c10_bigram_text_total.
